@@ -660,6 +660,8 @@ func (c *nctx) stmts(list []ast.Stmt, k func() string) string {
 		return c.ifStmt(s, next)
 	case *ast.ForStmt:
 		return c.forStmt(s) + next()
+	case *ast.RangeStmt:
+		return c.rangeStmt(s) + next()
 	case *ast.SwitchStmt:
 		return c.switchStmt(s, next)
 	case *ast.ReturnStmt:
@@ -812,6 +814,19 @@ func (c *nctx) assign(s *ast.AssignStmt) string {
 				if ok {
 					if v, ok := c.env[c.w.info.Uses[id]]; ok && v.sort == "img" {
 						return fmt.Sprintf("let %s : Img C := { %s with prefixLen := 0, childrenLen := 0, «prefix» := zeroPrefix }\n", v.lean, v.lean)
+					}
+				}
+			}
+			if rsel, ok := rhs.(*ast.SelectorExpr); ok && rsel.Sel.Name == "node" {
+				lid, ok1 := unparen(sel.X).(*ast.Ident)
+				rid, ok2 := unparen(rsel.X).(*ast.Ident)
+				if ok1 && ok2 {
+					lv, okl := c.env[c.w.info.Uses[lid]]
+					rv, okr := c.env[c.w.info.Uses[rid]]
+					if okl && okr && lv.sort == "img" && rv.sort == "img" {
+						// the three header fields, in the order the field-by-field form of node.go writes them
+						return fmt.Sprintf("let %s : Img C := { %s with childrenLen := %s.childrenLen }\nlet %s : Img C := { %s with prefixLen := %s.prefixLen }\nlet %s : Img C := { %s with «prefix» := %s.«prefix» }\n",
+							lv.lean, lv.lean, rv.lean, lv.lean, lv.lean, rv.lean, lv.lean, lv.lean, rv.lean)
 					}
 				}
 			}
@@ -1108,7 +1123,6 @@ func (c *nctx) assignedRoots(n ast.Node) []*nvar {
 
 func (c *nctx) forStmt(s *ast.ForStmt) string {
 	pre := ""
-	outer := c.save()
 	if s.Init != nil {
 		as, ok := s.Init.(*ast.AssignStmt)
 		if !ok {
@@ -1119,18 +1133,73 @@ func (c *nctx) forStmt(s *ast.ForStmt) string {
 	if s.Cond == nil {
 		c.fail(s.Pos(), "loop without a condition")
 	}
-	// state = variables assigned in body/post (including a counter declared by the initialiser)
 	probe := &ast.BlockStmt{List: append([]ast.Stmt{}, s.Body.List...)}
 	if s.Post != nil {
 		probe.List = append(probe.List, s.Post)
 	}
-	state := c.assignedRoots(probe)
-	if len(state) == 0 {
-		c.fail(s.Pos(), "loop that assigns nothing")
+	return pre + c.loopCore(s.Pos(), probe, nil, func() string { return c.rhs(s.Cond, "bool") }, s.Body.List, func() string {
+		if s.Post == nil {
+			return ""
+		}
+		return c.stmts([]ast.Stmt{s.Post}, func() string { return "" })
+	})
+}
+
+// `for i := range X` (X an integer that the body does not change) is `for i := 0; i < X; i++`.
+func (c *nctx) rangeStmt(s *ast.RangeStmt) string {
+	if s.Tok != token.DEFINE || s.Value != nil || s.Key == nil {
+		c.fail(s.Pos(), "unsupported range statement")
 	}
+	id, ok := s.Key.(*ast.Ident)
+	if !ok || id.Name == "_" {
+		c.fail(s.Pos(), "unsupported range key")
+	}
+	obj := c.w.info.Defs[id]
+	sort := c.sortOf(obj.Type(), s.Pos())
+	if sort != "int" && sort != "u8" && sort != "u32" {
+		c.fail(s.Pos(), "range over a %s", sort)
+	}
+	// the bound must not be assigned by the body (it is evaluated once)
+	probe := &ast.BlockStmt{List: s.Body.List}
+	if root := rootIdent(s.X); root != nil {
+		if v, ok := c.env[c.w.info.Uses[root]]; ok {
+			for _, a := range c.assignedRoots(probe) {
+				if a == v {
+					c.fail(s.Pos(), "the bound of a range loop is assigned in its body")
+				}
+			}
+		}
+	}
+	v := c.declare(obj, sort)
+	ty := c.leanType(sort)
+	pre := fmt.Sprintf("let %s : %s := (0 : %s)\n", v.lean, ty, ty)
+	bound, bsort := c.expr(s.X)
+	if bsort != sort {
+		c.fail(s.Pos(), "range bound of sort %s for a counter of sort %s", bsort, sort)
+	}
+	return pre + c.loopCore(s.Pos(), probe, v, func() string { return "(decide (" + v.lean + " < " + bound + "))" }, s.Body.List, func() string {
+		return fmt.Sprintf("let %s : %s := (%s + 1)\n", v.lean, ty, v.lean)
+	})
+}
+
+func (c *nctx) loopCore(pos token.Pos, probe ast.Node, counter *nvar, condCode func() string, bodyStmts []ast.Stmt, postCode func() string) string {
+	// state = variables assigned in body/post (including a counter declared by the initialiser)
+	assigned := c.assignedRoots(probe)
 	inState := map[*nvar]bool{}
-	for _, v := range state {
+	for _, v := range assigned {
 		inState[v] = true
+	}
+	if counter != nil {
+		inState[counter] = true
+	}
+	var state []*nvar
+	for _, v := range c.order {
+		if inState[v] {
+			state = append(state, v)
+		}
+	}
+	if len(state) == 0 {
+		c.fail(pos, "loop that assigns nothing")
 	}
 	var params, args []string
 	for _, v := range c.order {
@@ -1149,14 +1218,10 @@ func (c *nctx) forStmt(s *ast.ForStmt) string {
 	name := fmt.Sprintf("%s.loop%d", c.fname, c.nloops)
 	c.nloops++
 	inner := c.save()
-	cond := c.rhs(s.Cond, "bool")
-	body := c.stmts(s.Body.List, func() string {
+	cond := condCode()
+	body := c.stmts(bodyStmts, func() string {
 		c.env, c.order = inner.env, inner.order
-		post := ""
-		if s.Post != nil {
-			post = c.stmts([]ast.Stmt{s.Post}, func() string { return "" })
-		}
-		return post + name + " E " + strings.Join(args, " ") + " fuel " + tuple + "\n"
+		return postCode() + name + " E " + strings.Join(args, " ") + " fuel " + tuple + "\n"
 	})
 	c.restore(inner)
 	var b strings.Builder
@@ -1165,9 +1230,7 @@ func (c *nctx) forStmt(s *ast.ForStmt) string {
 	b.WriteString("    if " + cond + " then do\n" + indentN(body, "      ") + "    else pure " + tuple + "\n")
 	c.loops = append(c.loops, b.String())
 	// the counter of the initialiser stays visible only inside the loop in Go; its Lean binding is harmless
-	code := pre + fmt.Sprintf("let %s ← %s E %s loopFuel %s\n", tuple, name, strings.Join(args, " "), tuple)
-	_ = outer
-	return code
+	return fmt.Sprintf("let %s ← %s E %s loopFuel %s\n", tuple, name, strings.Join(args, " "), tuple)
 }
 
 // finish: what the function reports when it returns.
